@@ -41,7 +41,21 @@ def analyse(code):
                                 ast.SetComp, ast.DictComp)):
                 return cur
         return tree
-    return tree, parents, scope_of
+    def effective_scope(name_node):
+        """the scope a Store name binds in, honouring global / nonlocal declarations"""
+        sc = scope_of(name_node)
+        while isinstance(sc, ast.FunctionDef):
+            decl = None
+            for n in ast.walk(sc):
+                if isinstance(n, (ast.Global, ast.Nonlocal)) and name_node.id in n.names and scope_of(n) is sc:
+                    decl = n
+            if decl is None:
+                return sc
+            if isinstance(decl, ast.Global):
+                return tree
+            sc = scope_of(sc)       # nonlocal: the next enclosing function scope
+        return sc
+    return tree, parents, scope_of, effective_scope
 
 
 def run(repo, seed, tier):
@@ -50,7 +64,7 @@ def run(repo, seed, tier):
     evaluations = 0
     for code in PROGRAMS:
         straight = code.startswith('#S')
-        tree, parents, scope_of = analyse(code)
+        tree, parents, scope_of, effective_scope = analyse(code)
         seen = []
         ns = {'observe': lambda site, v: seen.append((site, v))}
         try:
@@ -107,7 +121,7 @@ def run(repo, seed, tier):
                         dnode = n
                 if dnode is None:
                     continue
-                dscope = scope_of(dnode)
+                dscope = effective_scope(dnode) if isinstance(dnode, ast.Name) else scope_of(dnode)
                 # a parameter belongs to the function whose header holds it
                 if isinstance(dnode, ast.arg):
                     dscope = parents[parents[dnode]] if isinstance(parents[dnode], ast.arguments) else dscope
@@ -116,7 +130,7 @@ def run(repo, seed, tier):
                 bname_scope = None
                 for n in ast.walk(tree):
                     if isinstance(n, ast.Name) and isinstance(n.ctx, ast.Store) and n.id == use.id and n.lineno == bind_const.lineno:
-                        bname_scope = scope_of(n)
+                        bname_scope = effective_scope(n)
                 if bname_scope is None:
                     # value passed as argument: the binding is the parameter of the called function
                     continue
@@ -137,5 +151,5 @@ def run(repo, seed, tier):
             'rule': '%d executable programs (module/function/closure/class body/comprehension/lambda nesting; rebinding, '
                     'global, nonlocal, parameters and defaults, for targets) with unique values per binding; every '
                     'executed use' % len(PROGRAMS),
-            'samples': PROGRAMS[:2], 'violations': [v[0] for v in seen_l.values()][:10],
+            'samples': PROGRAMS[:2], 'violations': violations[:300],
             'violation_counts': {k: len(v) for k, v in seen_l.items()}}
